@@ -984,6 +984,30 @@ def _inline_in_block(stmts, helpers, caller, cls, rep: Report, failed: set):
             nb, ch = _inline_in_block(h.body, helpers, caller, cls, rep, failed)
             h.body = nb
             changed |= ch
+        # `x = list(gen(args))` / `return list(gen(args))` over a new generator helper: the accumulating loop it abbreviates
+        if isinstance(st, (ast.Return, ast.Assign)) and isinstance(st.value, ast.Call) and isinstance(st.value.func, ast.Name) and st.value.func.id == "list" \
+                and len(st.value.args) == 1 and not st.value.keywords and isinstance(st.value.args[0], ast.Call) and _callee_name(st.value.args[0], cls)[0] in _GENS \
+                and (isinstance(st, ast.Return) or (len(st.targets) == 1 and isinstance(st.targets[0], ast.Name))):
+            gname = _callee_name(st.value.args[0], cls)[0].strip("_")
+            taken = _local_names(caller)
+            acc = st.targets[0].id if isinstance(st, ast.Assign) else f"ret__{gname}"
+            item = f"item__{gname}"
+            if item not in taken and (isinstance(st, ast.Assign) or acc not in taken) and \
+                    not any(isinstance(x, ast.Name) and x.id == acc for x in ast.walk(st.value)):
+                init = ast.copy_location(ast.Assign([ast.Name(acc, ast.Store())], ast.List([], ast.Load()), lineno=st.lineno), st)
+                loop = ast.copy_location(ast.For(ast.Name(item, ast.Store()), st.value.args[0],
+                                                 [ast.Expr(ast.Call(ast.Attribute(ast.Name(acc, ast.Load()), "append", ast.Load()), [ast.Name(item, ast.Load())], []))], [], lineno=st.lineno), st)
+                ast.fix_missing_locations(init)
+                ast.fix_missing_locations(loop)
+                fused = _fuse_generator_loop(loop, helpers, caller, cls)
+                if fused is not None:
+                    new_ = [init] + fused + ([ast.copy_location(ast.Return(ast.Name(acc, ast.Load())), st)] if isinstance(st, ast.Return) else [])
+                    for s_ in new_:
+                        ast.fix_missing_locations(s_)
+                    out.extend(new_)
+                    rep.inlined.append((f"{cls + '.' if cls else ''}{gname} (generator, list())", f"{cls + '.' if cls else ''}{caller.name}", getattr(st, "lineno", 0)))
+                    changed = True
+                    continue
         # `for T in gen(args): BODY` over a new generator helper `PRELUDE; for x in IT: S; yield E`: the two loops fused
         if isinstance(st, ast.For) and isinstance(st.iter, ast.Call):
             fused = _fuse_generator_loop(st, helpers, caller, cls)
@@ -1161,6 +1185,13 @@ def _expr_helper(fn):
         if any(isinstance(x, (ast.Await, ast.Yield, ast.YieldFrom, ast.Lambda, ast.NamedExpr)) for x in ast.walk(e)):
             return None
         return e
+    # a generator that is nothing but `for x in IT: yield E` is the generator expression `(E for x in IT)`
+    if len(body) == 1 and isinstance(body[0], ast.For) and not body[0].orelse and len(body[0].body) == 1 and isinstance(body[0].body[0], ast.Expr) \
+            and isinstance(body[0].body[0].value, ast.Yield) and body[0].body[0].value.value is not None:
+        lp = body[0]
+        E = lp.body[0].value.value
+        if not any(isinstance(x, (ast.Await, ast.Yield, ast.YieldFrom, ast.Lambda, ast.NamedExpr)) for x in list(ast.walk(E)) + list(ast.walk(lp.iter))):
+            return ast.copy_location(ast.GeneratorExp(E, [ast.comprehension(lp.target, lp.iter, [], 0)]), lp)
     # `if C: return True` / `return False` (or the mirror image) over a boolean-valued C is `return C` / `return not C`
     def _boolean(c):
         if isinstance(c, ast.Compare):
@@ -1190,11 +1221,13 @@ def inline_expression_helpers(helpers, fn, cls, rep: Report) -> bool:
             nonlocal changed
             self.generic_visit(node)
             name, _ = _callee_name(node, cls)
-            h = helpers.get(name)
+            h = helpers.get(name) or _GENS.get(name)
             if h is None or h is fn:
                 return node
             e = _expr_helper(h)
             if e is None:
+                return node
+            if name in _GENS and not isinstance(e, ast.GeneratorExp):
                 return node
             static = any(ast.unparse(d) == "staticmethod" for d in h.decorator_list) or getattr(h, "_module_level", False)
             bound = _bind(h, node, bool(cls), static)
@@ -1214,11 +1247,30 @@ def inline_expression_helpers(helpers, fn, cls, rep: Report) -> bool:
             if selfname and isinstance(node.func, ast.Attribute) and isinstance(node.func.value, ast.Name):
                 subst[selfname] = ast.Name(node.func.value.id, ast.Load())
             new = _Rename({}, subst).visit(copy.deepcopy(e))
+            if isinstance(new, ast.GeneratorExp):
+                new._from_helper = True  # type: ignore[attr-defined]
             ast.copy_location(new, node)
             ast.fix_missing_locations(new)
             rep.inlined.append((f"{cls + '.' if cls else ''}{h.name} (expression)", f"{cls + '.' if cls else ''}{fn.name}", getattr(node, "lineno", 0)))
             changed = True
             return new
+
+        def visit_Return(self, node):
+            self.generic_visit(node)
+            return _list_of_genexp(node)
+
+        def visit_Assign(self, node):
+            self.generic_visit(node)
+            return _list_of_genexp(node)
+
+    def _list_of_genexp(st):
+        # `list(<generator expression>)` is the list comprehension
+        v = st.value
+        if isinstance(v, ast.Call) and isinstance(v.func, ast.Name) and v.func.id == "list" and len(v.args) == 1 and not v.keywords and isinstance(v.args[0], ast.GeneratorExp) \
+                and getattr(v.args[0], "_from_helper", False):
+            st.value = ast.copy_location(ast.ListComp(v.args[0].elt, v.args[0].generators), v)
+            ast.fix_missing_locations(st)
+        return st
     fn.body = [T().visit(st) for st in fn.body]
     return changed
 
@@ -1355,6 +1407,9 @@ def normalize(modules) -> Report:
     n2.expand_table_dispatch(modules, known, rep)
     n2.expand_keyed_arms(modules, known, rep)
     n2.split_tuple_locals(modules, known, rep)
+    n2.split_tuple_assign(modules, known, rep)
+    n2.index_unpacked_rows(modules, known, rep)
+    n2.propagate_block_constants(modules, known, rep)
     n2.propagate_fresh_locals(modules, known, rep)
     n2.expand_augassign(modules, known, rep)
     n2.thread_constant_flags(modules, known, rep)
